@@ -42,7 +42,10 @@ class Attribute(dict):
 
     def __str__(self) -> str:
         """Return a htmlized representation for attributes."""
-        return " ".join(f'{key}="{value}"' for key, value in self.items())
+        return " ".join(
+            key if value is None else f'{key}="{value}"'
+            for key, value in self.items()
+        )
 
 
 class Element(abc.MutableSequence):
